@@ -490,9 +490,52 @@ class Flow:
         return None
 
     # ------------------------------------------------------------------ bodies
+    def resolve_indirect(self, fr, n):
+        """Function called through a pointer whose value is fixed at compile time: a const / constexpr namespace-scope
+        variable that is a function pointer, or a function-pointer member of a const aggregate initialised with an
+        initializer list (a table of operations).  -> function entry or None."""
+        tu = fr.tu
+        if n.get('kind') != 'CallExpr' or not tu.kids(n):
+            return None
+        c = tu.strip(tu.kids(n)[0], casts=True)
+        while c is not None and c.get('kind') == 'UnaryOperator' and c.get('opcode') == '*':
+            c = tu.strip(tu.kids(c)[0], casts=True)
+        init = None
+        if c is not None and c.get('kind') == 'MemberExpr' and tu.kids(c):
+            b = tu.strip(tu.kids(c)[0], casts=True)
+            d = tu.node(b.get('referencedDecl', {}).get('id')) if b is not None and b.get('kind') == 'DeclRefExpr' else None
+            fi = tu.sd(c).get('fi')
+            if d is not None and d.get('kind') == 'VarDecl' and (d.get('constexpr') or d.get('type', {}).get('qualType', '').startswith('const ')) \
+                    and fi is not None:
+                il = next((k for k in tu.kids(d) if k.get('kind') == 'InitListExpr'), None)
+                if il is None and tu.kids(d):
+                    st = tu.strip(tu.kids(d)[-1], casts=True)
+                    il = st if st is not None and st.get('kind') == 'InitListExpr' else None
+                if il is not None and fi < len(tu.kids(il)):
+                    init = tu.kids(il)[fi]
+        elif c is not None and c.get('kind') == 'DeclRefExpr' and c.get('referencedDecl', {}).get('kind') == 'VarDecl':
+            d = tu.node(c['referencedDecl'].get('id'))
+            ty = d.get('type', {}).get('qualType', '') if d is not None else ''
+            if d is not None and (d.get('constexpr') or '*const' in ty.replace(' ', '')) and d.get('init') and tu.kids(d):
+                init = tu.kids(d)[-1]
+        if init is None:
+            return None
+        t = tu.strip(init, casts=True)
+        while t is not None and t.get('kind') == 'UnaryOperator' and t.get('opcode') == '&':
+            t = tu.strip(tu.kids(t)[0], casts=True)
+        if t is None or t.get('kind') != 'DeclRefExpr' or t.get('referencedDecl', {}).get('kind') not in ('FunctionDecl', 'CXXMethodDecl'):
+            return None
+        f = tu.functions.get(t['referencedDecl'].get('id'))
+        if f is None:
+            sdq = tu.sd(t).get('q')
+            f = next((g for g in tu.fns(q=sdq, dep=False) if tu.cfg(g) is not None), None) if sdq else None
+        return f
+
     def find_body(self, fr, n):
         tu = fr.tu
         f = tu.callee_fn(n)
+        if f is None and not tu.sd(n).get('q'):
+            f = self.resolve_indirect(fr, n)
         if f is not None and tu.cfg(f) is not None:
             return fr.ti, tu, f
         sd = tu.sd(n)
